@@ -76,7 +76,9 @@ func (s *Server) urlGenHandlerFunc(w http.ResponseWriter, r *http.Request) {
 		for _, aI := range aInfo.Assets {
 			if aI.Path == asset {
 				data.DRMs = drmsFromAssetInfo(aI, s.Cfg.DrmCfg, "")
-				data.DRMs[0].Selected = true
+				if len(data.DRMs) > 0 {
+					data.DRMs[0].Selected = true
+				}
 			}
 		}
 		templateName = "drms"
